@@ -16,6 +16,14 @@ Theorem C19_no_resize_after_values : forall n a k l b,
 Proof. exact no_resize_after_values. Qed.
 Print Assumptions C19_no_resize_after_values.
 
+(* the values of the exec stack are the program: after the program decision the general size (the only way to size
+   the exec stack) can no longer be set, nor the decision repeated *)
+Theorem C19_no_resize_after_program : forall n a p b,
+  typed n (a ++ p :: b) = true -> is_program p = true ->
+  forall c, In c b -> is_maxall c = false /\ is_program c = false.
+Proof. exact no_resize_after_program. Qed.
+Print Assumptions C19_no_resize_after_program.
+
 Theorem C19_typed_prefix_closed : forall n a b, typed n (a ++ b) = true -> typed n a = true.
 Proof. exact typed_prefix_closed. Qed.
 Print Assumptions C19_typed_prefix_closed.
